@@ -157,6 +157,8 @@ func checkC17(c *Ctx, r *Report) {
 			}
 		}
 	}
+	effectsPositiveControls(c, r)
+	r.Floor("positive_controls", 5)
 	r.Floor("package_vars_amd64", 30)
 	r.Floor("api_entry_points_amd64", 25)
 	r.Floor("asm_routines_amd64", 15)
